@@ -24,7 +24,7 @@ from .ostr import OStr
 REPO = _os.environ.get("VERIF_REPO", "/repo")
 PKG = _os.path.join(REPO, "torrentfile")
 
-INERT = {"logging", "typing", "collections", "collections.abc", "argparse", "re", "functools", "itertools",
+INERT = {"logging", "typing", "collections", "collections.abc", "argparse", "re", "itertools",
          "abc", "enum", "string", "textwrap", "copy", "operator", "dataclasses", "warnings", "gettext",
          "contextlib", "errno", "stat", "types", "json", "binascii", "base64", "struct", "unicodedata"}
 
@@ -509,6 +509,51 @@ class World:
                                    urlencode=_Proxy("urllib.parse").__getattr__)
         m["urllib.parse"] = up
         m["urllib"] = types.SimpleNamespace(parse=up)
+
+        # --- functools: caches compare their arguments symbolically (a key may be a symbolic size)
+        import functools as _ft
+
+        def _args_equal(a, b):
+            if len(a) != len(b):
+                return False
+            for x, y in zip(a, b):
+                if isinstance(x, (SymInt,)) or isinstance(y, (SymInt,)):
+                    if not tb(x == y):
+                        return False
+                elif isinstance(x, (tuple, list)) and isinstance(y, (tuple, list)):
+                    if not _args_equal(tuple(x), tuple(y)):
+                        return False
+                elif not (x == y):
+                    return False
+            return True
+
+        def _lru_cache(maxsize=128, typed=False):
+            def deco(fn):
+                entries = []
+
+                @_ft.wraps(fn)
+                def wrapper(*a, **k):
+                    key = tuple(a) + tuple(sorted(k.items()))
+                    for kk, v in entries:
+                        if _args_equal(kk, key):
+                            return v
+                    v = fn(*a, **k)
+                    entries.append((key, v))
+                    return v
+                wrapper.cache_clear = lambda: entries.clear()
+                wrapper.cache_info = lambda: (0, 0, maxsize, len(entries))
+                wrapper.__wrapped__ = fn
+                return wrapper
+            if callable(maxsize):
+                fn, maxsize = maxsize, 128
+                return deco(fn)
+            return deco
+
+        fm = types.ModuleType("functools")
+        fm.__dict__.update({k: getattr(_ft, k) for k in dir(_ft) if not k.startswith("__")})
+        fm.lru_cache = _lru_cache
+        fm.cache = _lru_cache(None)
+        m["functools"] = fm
 
         # --- glob / fnmatch over the abstract filesystem
         import glob as _glob
